@@ -1,6 +1,7 @@
 package main
 
 import (
+	"bytes"
 	"fmt"
 	"math/rand/v2"
 	"net"
@@ -314,6 +315,31 @@ func genArpaName(rng *rand.Rand) string {
 
 func genIPBytes(rng *rand.Rand) []byte {
 	n := pick(rng, 4, 4, 16, 16, 16, 0, 1, 3, 5, 15, 17, 20)
+	if rng.IntN(6) == 0 {
+		// a well-formed value (IPv4 in 16-byte form, an all-ones mask, a CIDR mask, plain IPv6)
+		// cut or padded to every length around the legal ones: code that recognises a form by
+		// its leading bytes alone must still check the length
+		var full []byte
+		switch rng.IntN(4) {
+		case 0:
+			full = append([]byte{0, 0, 0, 0, 0, 0, 0, 0, 0, 0, 0xff, 0xff}, byte(rng.IntN(256)), byte(rng.IntN(256)), byte(rng.IntN(256)), byte(rng.IntN(256)))
+		case 1:
+			full = bytes.Repeat([]byte{0xff}, 16)
+		case 2:
+			full = net.CIDRMask(rng.IntN(129), 128)
+		default:
+			full = make([]byte, 16)
+			for i := range full {
+				full[i] = byte(rng.IntN(256))
+			}
+			full[0] = 0x20
+		}
+		k := rng.IntN(21)
+		if k <= len(full) {
+			return append([]byte{}, full[:k]...)
+		}
+		return append(append([]byte{}, full...), make([]byte, k-len(full))...)
+	}
 	b := make([]byte, n)
 	switch rng.IntN(4) {
 	case 0:
